@@ -227,7 +227,13 @@ pub fn gen_case(t: &mut Tape) -> Case {
             let nd = if no_deps { ", no_deps" } else { "" };
             src.push_str(&format!("/*GEN*/ #[{mac}(pub TheTrait, mock_api = TheMock{nd}{exp})]\npub mod m {{\n    use super::*;\n"));
             for f in &fns {
-                src.push_str(&format!("    {}\n", f.render("pub ").replace('\n', "\n    ")));
+                // an *enabled* cfg on a member must change nothing
+                let cfg = match t.weighted(&[4, 1, 1]) {
+                    0 => "",
+                    1 => "#[cfg(all())] ",
+                    _ => "#[cfg(not(any()))] ",
+                };
+                src.push_str(&format!("    {cfg}{}\n", f.render("pub ").replace('\n', "\n    ")));
             }
             src.push_str("}\n");
             let same = fns.windows(2).any(|w| w[0].params.iter().map(|p| p.vt).collect::<Vec<_>>() == w[1].params.iter().map(|p| p.vt).collect::<Vec<_>>() && w[0].is_async == w[1].is_async);
